@@ -143,3 +143,85 @@ R.fclause("C19", "episode-id/reads-only-agent-turn-slot-text", "custom", WR + "_
           fn=reads_only({"agent_id", "turn_id"}, {"hashlib", "str", "getattr"}))
 R.fclause("C19", "now-iso/reads-only-now_iso-now_ms", "custom", WR + "_now_iso_from_ctx",
           fn=reads_only({"now_iso", "now_ms"}, {"int", "str", "getattr", "hasattr", "isinstance"}))
+
+# ------------------------------------------------------------------ write_reflection_entries
+# entries are dicts with string keys and arbitrary (uninterpreted) values; the index is an object whose `add` may raise
+# anything (ghost `attempts` / `successes` count the calls and the calls that returned).  `_normalize_entry` is assumed
+# (not verified: list()/str() of arbitrary JSON values): it returns an episode dict or raises.
+R.untype("J")
+R.record("WriteReport", {"ops_attempted": "int", "ops_written": "int", "errors": "List[str]", "reason": "Optional[str]",
+                         "index_kind": "Optional[str]", "ts_iso": "Optional[str]"})
+R.dictrec("EpisodeRec", {"id": "str", "owner": "str", "ts": "str", "kind": "str", "tags": "List[str]", "text": "str"})
+R.funtype("IndexAdd", params=["ep"], raises="Exception",
+          effects_before=["attempts.append(1)"], effects=["successes.append(1)"])
+R.objtype("MemIndex", {"add": "IndexAdd", "kind": "Optional[str]"})
+R.optobj("OptMemIndex", "MemIndex")
+R.objtype("WState", {"memory_index": "OptMemIndex"})
+R.objtype("WResult", {"memory_entries": "List[Dict[str, Un[J]]]"})
+R.optobj("OptWResult", "WResult")
+R.dictrec("WBudgets", {"ops_reflection": "int"})
+R.dictrec("WSched", {"budgets": "WBudgets"})
+R.dictrec("WCfg", {"scheduler": "WSched"})
+R.dictrec("WCfgEmpty", {})
+
+R.contract(
+    WR + "_normalize_entry", "C19", verify=False,
+    types={"base": "Dict[str, Un[J]]", "owner": "str", "ts_iso": "str", "episode_id": "str", "maybe_vec": "Optional[Un[J]]"},
+    returns="EpisodeRec", raises="Exception", modifies=[],
+    ensures=[("carries-id-owner-ts", "result['id'] == episode_id and result['owner'] == owner and result['ts'] == ts_iso")],
+)
+
+W_GHOST = {"attempts": ("List[int]", "empty"), "successes": ("List[int]", "empty")}
+CAP = "cfg_root['scheduler']['budgets']['ops_reflection']"
+NENT = "ite(present(old(result)), len(old(old(result).memory_entries)), 0)"
+R.contract(
+    WR + "write_reflection_entries", "C19",
+    types={"ctx": "ReflCtx", "state": "WState", "cfg_root": "WCfg", "result": "OptWResult"},
+    returns="WriteReport",
+    ghost=W_GHOST,
+    ensures=[
+        ("written-within-entries-and-ops-cap",
+         "0 <= result.ops_written and result.ops_written <= " + NENT + " and "
+         "result.ops_written <= ite(" + CAP + " > 0, " + CAP + ", 0)"),
+        ("nothing-written-when-cap-nonpositive",
+         "implies(" + CAP + " <= 0, result.ops_written == 0 and len(attempts) == 0)"),
+        ("nothing-written-without-index",
+         "implies(not present(state.memory_index), result.ops_written == 0 and len(attempts) == 0)"),
+        ("nothing-written-without-entries",
+         "implies(" + NENT + " == 0, result.ops_written == 0 and len(attempts) == 0 and result.ops_attempted == 0)"),
+        ("written-counts-exactly-the-successful-adds", "result.ops_written == len(successes)"),
+        ("at-most-two-add-calls-per-kept-entry",
+         "len(attempts) <= 2 * ite(" + NENT + " < " + CAP + ", " + NENT + ", ite(" + CAP + " > 0, " + CAP + ", 0))"),
+        ("attempted-reports-entry-count", "result.ops_attempted == " + NENT),
+        ("timestamp-from-turn-clock",
+         "implies(not is_none(result.ts_iso) and not is_none(ctx.now_iso), some(result.ts_iso) == some(ctx.now_iso))"),
+    ],
+    raises="none",          # "never raises"
+    # the handler around `_choose_index` is dead for the typed state (plain attribute reads cannot raise); its
+    # fail-soft shape is covered by the Engine F clause writer/no-escape:index-select below
+    unreachable_ok=["errors.append(f'index_select_error", "return WriteReport(ops_attempted=attempted_total, ops_written=0, "
+                    "errors=errors, reason='index_select_error'"],
+    loops={0: {"inv": [
+        "0 <= written and written <= _i",
+        "len(successes) == written",
+        "len(attempts) <= 2 * _i",
+        "len(entries) <= attempted_total and len(entries) <= ops_cap and ops_cap > 0",
+    ]}},
+    locals={"errors": "List[str]", "written": "int", "index_kind": "Optional[str]"},
+)
+R.contract(
+    WR + "write_reflection_entries", "C19", name="write_reflection_entries[no budget configured]", callee=False,
+    types={"ctx": "ReflCtx", "state": "WState", "cfg_root": "WCfgEmpty", "result": "OptWResult"},
+    returns="WriteReport",
+    ghost=W_GHOST,
+    ensures=[("writer-default-cap-is-zero", "result.ops_written == 0 and len(attempts) == 0")],
+    raises="none",
+    # with no scheduler.budgets.ops_reflection the writer's cap defaults to 0: everything after the cap test is dead
+    unreachable_ok=["if len(entries) > ops_cap", "ts_iso = _now_iso_from_ctx", "try:", "owner = 'agent'", "written = 0",
+                    "for i, base in enumerate(entries)",
+                    "return WriteReport(ops_attempted=attempted_total, ops_written=written"],
+)
+
+for _nm, _pat in [("index-select", {"call": "_choose_index"}), ("index-add", {"call": "add", "recv": "index"}),
+                  ("episode-id", {"call": "_episode_id"}), ("normalize-entry", {"call": "_normalize_entry"})]:
+    R.fclause("C19", "writer/no-escape:%s" % _nm, "noescape", WR + "write_reflection_entries", sites=_pat)
